@@ -2,7 +2,7 @@
 Watchdog (with timeouts, under the virtual clock) explored with mark / advance / tick / kill added to the alphabet
 and walked by Trace_CoordTimed."""
 import random, datetime as _dt
-from . import base, tlc, explore, conform, coord
+from . import base, tlc, explore, conform, coord, shims
 
 NOONE = coord.NOONE
 FLAG = {"g1": "resources_acquired", "s": "execution_complete", "g2": "validation_passed"}
@@ -163,3 +163,151 @@ def model_check(R, tier):
     R.add_tlc("CoordTimed ops=%d res=%d" % (len(c["ops"]), len(c["res"])), r)
     if r["violated"]:
         raise base.MachineryError("CoordTimed.tla violates its own P-layer: %s\n%s" % (r["violated"], r["out"][-2000:]))
+
+
+# ------------------------------------------------------------------ priority inheritance (Inheritance.tla)
+NCAP = 4
+
+
+class InheritAdapter(TimedAdapter):
+    def __init__(self, cfg):
+        super().__init__(cfg)
+        import importlib
+        self.pr = importlib.import_module("operon_ai.coordination.priority")
+        shims.install_clock(self.pr, self.clock)
+
+    def make(self):
+        w = super().make()
+        w["pm"] = self.pr.PriorityInheritance()
+        return w
+
+    def alphabet(self, w):
+        acts = coord.Adapter.alphabet(self, w) if not self.cfg.get("timed") else super().alphabet(w)
+        z = {"o": NOONE, "r": NOONE}
+        acts.append(dict(z, op="boost"))
+        for o in self.ops:
+            if o in w["c"].active_operations and w["pm"].is_boosted(o):
+                acts.append(dict(z, op="restore", o=o))
+        if w["pm"].active_boosts:
+            acts.append(dict(z, op="clear"))
+        return acts
+
+    def project(self, w):
+        p = super().project(w)
+        g = w["c"].dependency_graph.edges
+        p["deps"] = {o: [[b, r] for (b, r) in g.get(o, [])] for o in self.ops}
+        p["worder"] = list(g.keys())
+        p["boosts"] = {o: (w["pm"].active_boosts[o].original_priority if o in w["pm"].active_boosts else 0) for o in self.ops}
+        p["nboosts"] = min(NCAP, w["pm"].total_boosts)
+        return p
+
+    def key(self, w):
+        return explore.canon([super().key(w), self.project(w)["boosts"], self.project(w)["pri"], self.project(w)["nboosts"], self.project(w)["lockpri"]])
+
+    def apply(self, w, a):
+        c, op, o = w["c"], a["op"], a["o"]
+        if op in ("boost", "restore", "clear"):
+            obs = {"res": "none", "raised": False, "victim": NOONE, "precyc": [], "killed": [], "new": []}
+            try:
+                if op == "boost":
+                    obs["new"] = [b.operation_id for b in w["pm"].check_and_boost(c)]
+                elif op == "restore":
+                    obs["res"] = "restored" if w["pm"].restore_priority(c.active_operations[o]) is not None else "none"
+                else:
+                    obs["cleared"] = w["pm"].clear_all(c)
+            except Exception as ex:
+                obs["raised"], obs["exc"] = True, "%s: %s" % (type(ex).__name__, ex)
+            obs["dl"], obs["cyc"] = self.deadlock(c)
+            return obs
+        obs = super().apply(w, a)
+        obs.setdefault("new", [])
+        return obs
+
+
+def iconstants(c):
+    d = constants(c)
+    d["NCap"] = NCAP
+    return d
+
+
+def isig(clause, e, pre):
+    return "%s inheritance op=%s" % (clause, e["act"]["op"])
+
+
+def explore_inherit(args):
+    c, depth, seed_ = args
+    ad = InheritAdapter(c)
+    t = explore.explore(ad, max_depth=depth, max_nodes=c.get("maxnodes", 60000), audit_rng=random.Random(seed_))
+    r, pf, dr = conform.walk_tree("Trace_Inheritance", t, iconstants(c), "inherit")
+    xf = {v[1]: sorted(v[2]) for v in tlc.printed(r["out"], "XF")}
+    fails = conform.fails_from(pf, t, isig, {"cfg": c})
+    if t["audit_fail"]:
+        fails += conform.audit_followup(ad, t, "Trace_Inheritance", iconstants(c), isig, {"cfg": c})
+    nb = sum(len(e["obs"].get("new", [])) for e in t["edges"])
+    pre_after = sum(1 for e in t["edges"] if e["act"]["op"] == "acquire" and e["obs"]["res"] == "preempted" and any(v for v in
+                    (tree_pre(t, e)["boosts"].values())))
+    sample = next(({"cfg": c, "path": [[a["op"], a["o"], a["r"]] for a in t["paths"][e["id"]]], "obs": e["obs"], "post_pri": e["post"]["pri"]}
+                   for e in t["edges"] if len(e["obs"].get("new", [])) >= 2), None)
+    return {"cfg": c, "edges": len(t["edges"]), "states": t["states"], "truncated": t["truncated"], "audit": t["audit_fail"], "fails": fails, "drift": len(dr),
+            "tlc": {k: r.get(k) for k in ("distinct", "generated")}, "boosts_applied": nb, "preemptions_with_boosts_active": pre_after, "sample": sample,
+            "extra_clause_failures": [{"clause": cl, "path": [[a["op"], a["o"], a["r"]] for a in t["paths"][k]], "obs": t["edges"][k - 1]["obs"]} for k, cls in list(xf.items())[:5] for cl in cls],
+            "extra_fail_count": sum(len(v) for v in xf.values())}
+
+
+def tree_pre(t, e):
+    return t["edges"][e["parent"] - 1]["post"] if e.get("parent") else t["header"]["root"]
+
+
+def simulate_inherit(args):
+    c, num, depth, seed_ = args
+    beh = conform.simulate("Inheritance", iconstants(c), num, depth, seed_, spec="ISpec")
+    ad = InheritAdapter(c)
+    chains, mism = [], 0
+    for states in beh:
+        w = ad.make()
+        chain = []
+        for st in states[1:]:
+            o = st["obs"]
+            a = {"op": o["op"], "o": o["o"], "r": o["r"]}
+            if a["op"] not in ("watchdog", "start", "tick", "kill", "boost", "clear") and a["o"] not in w["c"].active_operations:
+                break
+            obs = ad.apply(w, a)
+            post = ad.project(w)
+            if post["owner"] != dict(st["owner"]) or sorted(st["active"]) != post["active"] or post["pri"] != dict(st["pri"]) or post["boosts"] != dict(st["boosts"]):
+                mism += 1
+            chain.append({"act": a, "obs": obs, "post": post})
+        chains.append(chain)
+    tree = explore.chains_to_tree(chains)
+    tree["header"]["root"] = ad.project(ad.make())
+    r, pf, dr = conform.walk_tree("Trace_Inheritance", tree, iconstants(c), "inheritsim")
+    xf = tlc.printed(r["out"], "XF")
+    return {"cfg": c, "behaviours": len(chains), "steps": len(tree["edges"]), "mismatch": mism, "drift": len(dr), "extra_fail_count": len(xf),
+            "fails": conform.fails_from(pf, tree, isig, {"cfg": c, "from": "tlc-simulate"})}
+
+
+def iconfigs(tier):
+    def C(no, nr, pre, high, strat="priority", **kw):
+        d = {"ops": ["op%d" % i for i in range(1, no + 1)], "res": ["r%d" % i for i in range(1, nr + 1)], "preempt": pre, "high": high, "strategy": strat,
+             "maxhold": 1, "maxt": 0, "starvet": 0, "progt": 0, "exempt": [], "cap": 1, "timed": False}
+        d.update(kw)
+        return d
+    cs = [C(3, 2, ["r1"], ["op3"]), C(3, 2, [], ["op1"], "oldest"), C(3, 3, ["r2"], ["op2", "op3"])]
+    if tier != "quick":
+        cs += [C(3, 3, ["r1", "r2"], ["op3"], "oldest"), C(3, 2, ["r1", "r2"], ["op2"]), C(2, 2, ["r1"], ["op2"], "priority", timed=True, starvet=1, cap=2)]
+    return cs
+
+
+def model_check_inherit(R, tier):
+    c = iconfigs("quick")[0]
+    props = ["BoostMonotone", "NoInversionAfterBoost", "RestoreExact", "OnlyBoostRaises", "BoostIsFixpoint"]
+    cfg = tlc.cfg_text(init="IInit", next_="INext", constants=iconstants(c), invariants=["OrderedRefines", "OriginalKept", "Unboosted", "LockPriOK", "EndedOwnNothing"],
+                       properties=props, view="IView", deadlock=False)
+    r = tlc.must(tlc.run_tlc("Inheritance", cfg, workers=16, timeout=3000, coverage=True), "Inheritance")
+    R.add_tlc("Inheritance ops=3 res=2 (ordered wait-for graph refines the set-valued one; boost / restore / clear)", r)
+    if r["violated"]:
+        raise base.MachineryError("Inheritance.tla violates its own properties: %s\n%s" % (r["violated"], r["out"][-2000:]))
+    cfg = tlc.cfg_text(init="IInit", next_="INext", constants=iconstants(c), properties=["BoostProtects"], view="IView", deadlock=False)
+    r2 = tlc.run_tlc("Inheritance", cfg, workers=16, timeout=3000)
+    if not r2["violated"]:
+        raise base.MachineryError("probe BoostProtects should be refuted by Inheritance.tla (a boosted holder can still be preempted) and is not")
+    R.cov["design_fact_boost_does_not_protect_from_preemption"] = "refuted BoostProtects in %s states" % r2.get("distinct")
